@@ -404,6 +404,9 @@ class StringValue(Value):
         if len(value) < 2 or value[-1] != value[0]:
             raise ValueTypeError("string must begin and end with same delimiter")
         self.original_string = value[1:-1]
+        wide = [x for x in self.original_string if ord(x) > 0xFF]
+        if wide:
+            raise ValueTypeError("[{}] cannot be stored in one byte".format(wide[0]))
         self.hex_array = ["{:02X}".format(ord(x)) for x in value[1:-1]]
 
     def hex(self, size=0):
